@@ -300,7 +300,7 @@ def linear_grid_axioms(eqs, atoms):
             uniq[t.get_id()] = t
         ts = list(uniq.values())
         if 2 <= len(ts) <= 4:
-            lin.append(ts)
+            lin.append((ts, lhs == rhs))
     # precisions are often written in several syntactically different but equal ways: eligibility ignores which
     # precision term an atom carries, and an instance is emitted for every distinct precision term (few)
     ps = {}
@@ -313,7 +313,7 @@ def linear_grid_axioms(eqs, atoms):
     done = set()
     for _round in range(4):
         grew = False
-        for k, ts in enumerate(lin):
+        for k, (ts, eqn) in enumerate(lin):
             if k in done:
                 continue
             missing = [t for t in ts if t.get_id() not in have]
@@ -322,7 +322,8 @@ def linear_grid_axioms(eqs, atoms):
                 for p in plist:
                     for i in range(len(ts)):
                         others = [grid(ts[j], p) for j in range(len(ts)) if j != i]
-                        out.append(z3.Implies(z3.And(*others), grid(ts[i], p)))
+                        # the equation may occur under a negation / inside a condition: the instance is conditional on it
+                        out.append(z3.Implies(z3.And(eqn, *others), grid(ts[i], p)))
                     for t in missing:
                         na = grid(t, p)
                         atoms[na.get_id()] = na
